@@ -91,6 +91,8 @@ class Obj(Engine):
                     'stacks': [gen.gen_stack(rng) for _ in range(8)]}
         if r < 0.64:
             return {'op': 'snapshot', 'h': h, 'part': rng.choice(['self', 'self', 'vin', 'vout', 'prevout']), 'i': i}
+        if r < 0.648:
+            return {'op': 'lagwit', 'spec': gen.gen_tx(rng, 3, 2, wit_mode='none'), 'stacks': [gen.gen_stack(rng) for _ in range(4)], 'txin': gen.gen_txin(rng)}
         if r < 0.655:
             return {'op': 'retype', 'h': h, 'which': rng.choice(['vin', 'vout', 'both']), 'to': rng.choice(['tuple', 'tuple', 'list'])}
         if r < 0.67:
@@ -320,9 +322,12 @@ class Obj(Engine):
             return conv.block_from_spec(spec)
         raise ValueError(kind)
 
-    def _mkwit(self, stacks):
+    def _mkwit(self, stacks, as_list=False):
         C, S = self.C, self.S
-        return C.CTxWitness(tuple(C.CTxInWitness(S.CScriptWitness(tuple(bytes.fromhex(x) for x in st))) for st in stacks))
+        entries = [C.CTxInWitness(S.CScriptWitness(tuple(bytes.fromhex(x) for x in st))) for st in stacks]
+        # CTxWitness([...]) is the usual idiom and keeps the list it is given; copies and snapshots of the
+        # transaction share that witness object by reference - nobody may write to it behind their back
+        return C.CTxWitness(entries if as_list else tuple(entries))
 
     def _apply(self, a):
         """Apply one operation to the real objects and to the model.  Returns the index of the handle
@@ -528,8 +533,10 @@ class Obj(Engine):
                 h.obj.wit = C.CTxWitness()
                 h.model['wit'] = None
             else:
-                h.obj.wit = self._mkwit(stacks)
+                h.obj.wit = self._mkwit(stacks, as_list=(a['i'] % 3 == 1 and how in ('add', 'alter')))
                 h.model['wit'] = stacks
+                if a['i'] % 3 == 1 and how in ('add', 'alter'):
+                    ctx.probe('witness-over-a-list')
             after_txid = h.obj.GetTxid()
             ctx.check(before_txid == after_txid, 'C02.txid-witness', 'txid changed by a witness-only edit (%s)' % how, how=how)
             ctx.probe('witness-edit.' + how)
@@ -598,6 +605,39 @@ class Obj(Engine):
             ctx.probe('%s.%s' % (op, kind))
             log('%s/%s' % (kind, part), [hidx, k2])
             return k2
+        if op == 'lagwit':
+            # an input is appended to a mutable transaction AFTER its witness was set (as a list, the usual idiom): the
+            # witness now lags behind the inputs.  How that transaction itself serialises is not pinned by anything; the
+            # snapshot and the copy taken before - which share the witness object - must stay what they were.
+            spec = copy.deepcopy(a['spec'])
+            nin = len(spec['vin'])
+            if nin == 0:
+                log('skip')
+                return None
+            spec['wit'] = [list(a['stacks'][k % len(a['stacks'])]) or ['ee'] for k in range(nin)]
+            m = conv.tx_from_spec(dict(spec, wit=None), True)
+            m.wit = self._mkwit(spec['wit'], as_list=True)
+            snap = C.CTransaction.from_tx(m)
+            cp = C.CMutableTransaction.from_tx(m)
+            want = RW.enc_tx(spec, True)
+            m.vin.append(conv.txin_from_spec(a['txin'], True))
+            for fn in (m.serialize, m.GetHash, m.GetTxid, lambda: hash(m), lambda: m == cp, m.has_witness):
+                try:
+                    fn()
+                except Exception:            # noqa: BLE001 - the lagging state itself is not judged
+                    pass
+            for name, o in (('immutable snapshot', snap), ('mutable copy', cp)):
+                try:
+                    got = o.serialize()
+                    ids = (o.GetTxid(), o.GetHash())
+                except Exception as e:       # noqa: BLE001
+                    ctx.check(False, 'C09.alias', 'after an input was appended to the SOURCE transaction (whose witness now lags behind its inputs) and the source was serialised, the %s taken before raises %s' % (name, type(e).__name__), kind='tx')
+                    return None
+                ctx.check(got == want and ids == (RW.txid(spec), RW.dsha(want)), 'C09.alias',
+                          'after an input was appended to the SOURCE transaction (whose witness now lags behind its inputs) and the source was serialised, the %s taken before no longer serialises / identifies as it did' % name, kind='tx')
+            ctx.fault('witness-lags-behind-inputs')
+            log('ok', nin)
+            return None
         if op == 'xproc':
             import pickle
             import subprocess
